@@ -42,6 +42,7 @@ type Profile struct {
 	BareLambda     bool    // lambda parameters without annotation where the body determines them
 	GenericTypes   bool    // a generic union GOpt<T> and a generic record GBox<T>
 	RecGroups      bool    // type A = {.. B ..} and B = ... groups with a forward reference
+	Stateful       bool    // buf / dict groups: New, several writes, reads
 	TopVarsMin     int     // at least this many top-level variables (with TopVars)
 	NoIf           bool    // no if expressions (C02: not in the list of constructs with promised inference)
 	NoMatch        bool
@@ -54,7 +55,7 @@ type Profile struct {
 
 var ProfileC01 = Profile{Name: "c01", MulDiv: true, Lambdas: true, StrMatch: true, Interp: true, RawStr: true, Tuple3: true, InnerFun: true, IfOnly: true,
 	UnionNoDef: true, FieldPerm: true, Partial: true, Pipes: true, HigherOrder: true, CompositeEq: true, UsField: true, SliceLib: true, StringsLib: true,
-	TopVars: true, Shadow: true, LowerFields: true, Recursion: true, StrCompare: true, GenericFns: true, RecGroups: true, UnitIfElse: true, PipeStmt: true, MoreSlice: true, BareLambda: true, GenericTypes: true, MinFuncs: 3, MaxFuncs: 7, MaxDepth: 4}
+	TopVars: true, Shadow: true, LowerFields: true, Recursion: true, StrCompare: true, GenericFns: true, RecGroups: true, Stateful: true, UnitIfElse: true, PipeStmt: true, MoreSlice: true, BareLambda: true, GenericTypes: true, MinFuncs: 3, MaxFuncs: 7, MaxDepth: 4}
 
 var ProfileTiny = Profile{Name: "tinyfo", ShadowProb: 0.3, Partial: true, Pipes: true, SliceLib: true, StringsLib: true, HigherOrder: true, CompositeEq: true, Shadow: true, FieldPerm: true, LetRhsInline: true, IfOnly: true, UnionNoDef: true, MinFuncs: 2, MaxFuncs: 5, MaxDepth: 3}
 
@@ -178,6 +179,15 @@ func Generate(r *core.Rand, p Profile, pkg string) (*Program, map[string]int) {
 }
 
 func (g *Gen) add(d Decl) { g.prog.Decls = append(g.prog.Decls, d) }
+
+func (g *Gen) needImport(pkg string) {
+	for _, im := range g.prog.Imports {
+		if im == pkg {
+			return
+		}
+	}
+	g.prog.Imports = append(g.prog.Imports, pkg)
+}
 
 func (g *Gen) genTypes() {
 	nr := 1 + g.R.Intn(3)
@@ -748,6 +758,42 @@ func (g *Gen) block(t *Type, outer *scope, d int, fx bool, funcTop bool) *Block 
 			b.Stmts = append(b.Stmts, &LetDestr{names, e})
 			pend = append(pend, pending{len(b.Stmts) - 1, us})
 			g.feat("destructuring-let")
+		case k < 8 && fx && g.P.Stateful && g.R.Chance(0.25):
+			// a mutable library object used in a straight line: buffer or dictionary
+			if g.R.Bool() {
+				g.needImport("buf")
+				bn := g.fresh("bf")
+				sc.goNames[bn] = true
+				b.Stmts = append(b.Stmts, &Let{bn, call("buf.New", &UnitLit{})})
+				for w, nw := 0, 1+g.R.Intn(3); w < nw; w++ {
+					b.Stmts = append(b.Stmts, &ExprStmt{call("buf.Write", v(bn), g.expr(TString, sc, d-1, fx))})
+				}
+				sn := g.letName(sc)
+				b.Stmts = append(b.Stmts, &Let{sn, call("buf.String", v(bn))})
+				u := sc.add(sn, TString)
+				pend = append(pend, pending{len(b.Stmts) - 1, []*bool{u}})
+				g.feat("buf-group")
+			} else {
+				g.needImport("dict")
+				dn := g.fresh("dc")
+				sc.goNames[dn] = true
+				b.Stmts = append(b.Stmts, &Let{dn, &Call{Fn: v("dict.New"), TArgs: []*Type{TString, TInt}, Args: []Expr{&UnitLit{}}}})
+				keys := []string{"k1", "k2", "k3"}
+				first := core.Pick(g.R, keys)
+				b.Stmts = append(b.Stmts, &ExprStmt{call("dict.Add", v(dn), &StrLit{first}, g.expr(TInt, sc, d-1, fx))})
+				for w, nw := 0, g.R.Intn(4); w < nw; w++ {
+					b.Stmts = append(b.Stmts, &ExprStmt{call("dict.Add", v(dn), &StrLit{core.Pick(g.R, keys)}, g.expr(TInt, sc, d-1, fx))})
+				}
+				in := g.letName(sc)
+				b.Stmts = append(b.Stmts, &Let{in, call("dict.Item", v(dn), &StrLit{first})})
+				u1 := sc.add(in, TInt)
+				pend = append(pend, pending{len(b.Stmts) - 1, []*bool{u1}})
+				cn := g.letName(sc)
+				b.Stmts = append(b.Stmts, &Let{cn, call("dict.ContainsKey", v(dn), &StrLit{core.Pick(g.R, append(keys, "zz"))})})
+				u2 := sc.add(cn, TBool)
+				pend = append(pend, pending{len(b.Stmts) - 1, []*bool{u2}})
+				g.feat("dict-group")
+			}
 		case k < 8 && fx: // unit statement
 			b.Stmts = append(b.Stmts, &ExprStmt{g.unitExpr(sc, d-1)})
 		case k < 9 && g.P.InnerFun && d >= 2 && isTop:
